@@ -2,7 +2,7 @@
 import ast
 
 from ..model import AnchorError, call_name, const_str, dotted, src
-from ..rules import FuncView, suffix_match, defect_scope
+from ..rules import FuncView, suffix_match, defect_scope, peval
 from .. import defects
 
 EXPLANATION = (
@@ -31,12 +31,21 @@ def check(ctx):
         ctx.bad(f.rule, f.node, f.construct, f.why)
     for kw in ("timeout", "redoTimeout", "tx", "rx", "device", "uid", "name"):
         ctx.check(kw in params, "D4-ctor", ini, "Exchange accepts keyword %s" % kw, "the documented setting %s cannot be passed" % kw)
-    asg = {src(n.targets[0]): src(n.value) for n in ast.walk(ini) if isinstance(n, ast.Assign)}
-    ctx.check(asg.get("self.timer") == "StoreTimer(stack.stamper, duration=self.timeout)" and
-              asg.get("self.redoTimer") == "StoreTimer(stack.stamper, duration=self.redoTimeout)" and
-              asg.get("self.timeout") == "self.Timeout if timeout is None else timeout" and
-              asg.get("self.redoTimeout") == "self.RedoTimeout if redoTimeout is None else redoTimeout", "D4-ctor", ini,
-              "timeout/redoTimeout default to the class values only when None (0.0 is kept) and drive StoreTimers on the stack's stamper", "")
+    # what __init__ stores for given settings (partial evaluation: independent of how the defaulting is spelled)
+    IV = FuncView(ctx, ini)
+    okc, seen = True, {}
+    for val, want in ((None, None), (0.0, "0.0"), (7.5, "7.5")):
+        outs = peval(IV, {"timeout": val, "redoTimeout": val}, effects=True)
+        okc = okc and len(outs) == 1
+        for k, e, h, eff in outs:
+            st = dict(x.split(" = ", 1) for x in eff if " = " in x)
+            seen[val] = {k_: st.get(k_) for k_ in ("self.timeout", "self.redoTimeout", "self.timer", "self.redoTimer")}
+            for attr, cls_default, timer in (("timeout", "self.Timeout", "timer"), ("redoTimeout", "self.RedoTimeout", "redoTimer")):
+                w = cls_default if want is None else want
+                okc = okc and st.get("self." + attr) == w and \
+                    st.get("self." + timer) in ("StoreTimer(stack.stamper, duration=%s)" % d for d in ("self." + attr, w))
+    ctx.check(okc, "D4-ctor", ini,
+              "timeout/redoTimeout default to the class values only when None (0.0 is kept) and drive StoreTimers on the stack's stamper", "%s" % seen)
     for cn in ("Exchanger", "Exchangent"):
         c = ctx.cls("exchanging", cn)
         i2 = c.own_method("__init__")
